@@ -788,6 +788,13 @@ void tickit_window_flush(TickitWindow *win)
 
     for(int i = 0; i < damage_count; i++) {
       TickitRect *rect = &rects[i];
+
+      /* The root window may have shrunk (terminal resize) since this damage
+       * was recorded; never hand out more than the window's current area */
+      if(!tickit_rect_intersect(rect, rect, &(TickitRect){
+            .top = 0, .left = 0, .lines = root_window->rect.lines, .cols = root_window->rect.cols }))
+        continue;
+
       tickit_renderbuffer_save(rb);
       tickit_renderbuffer_clip(rb, rect);
       _do_expose(root_window, rect, rb);
